@@ -176,6 +176,26 @@ EXTRA2 = {
 }
 for k, v in EXTRA2.items():
     claimed[k]["text"] += v
+EXTRA3 = {
+ "C01": " Date range corners (Go's zero time, -1 s); digest-shaped values in case variants; actor names over the near-string menu.",
+ "C02": " The document serial number over the near-string menu.",
+ "C04": " Every member the decoders' own Go types accept (by reflection over v2_3.Document and cyclonedx.BOM) that the base documents lack, inserted with a 10-value menu; every small SPDX relationship graph (cycles, no declared root).",
+ "C05": " Every small SPDX relationship graph over three elements (cycles, mutual containment, no declared root).",
+ "C06": " Documents of 1, 5 and 17 MiB; declaration text of either format inside other string members of the negative cube; a text format reported for a JSON object counts as disagreement.",
+ "C07": " Negative enum numbers and keys; every identifier type and hash algorithm at once.",
+ "C08": " Removal of identifiers that coincide with present ones under trimming or case folding.",
+ "C09": " Operands of 3..515 nodes sharing every identifier in different unsorted orders; edge objects with an empty target list.",
+ "C10": " Wide operands and empty-target edges as in C09.",
+ "C12": " Lists of 40, 515, 1027 and 2000 nodes under GOMAXPROCS 2, 3 and 16; a copy or result behaves like its own clone under every edit.",
+ "C14": " New map keys with an empty value.",
+ "C16": " Probes that carry a list node's identifier.",
+ "C17": " The read-write lock shim models writer preference (Lock = announce + acquire), so recursive read locks deadlock as at run time; a non-JSON input with a 96 KiB line in the alphabet.",
+ "C18": " In-place configuration through the exported Options value; two instances built from one option list with spare capacity; a store through a real file-system backend.",
+ "C19": " Documents of 1.5 MiB, 9 MiB and 20000 nodes.",
+ "C20": " Two concurrent stores of one identifier: every schedule of their file-system steps with <=2 (thorough 4) preemptions x a kill before every step and inside every write (file-system seam combined with the controlled scheduler).",
+}
+for k, v in EXTRA3.items():
+    claimed[k]["text"] += v
 
 checks = []
 for pid in all_ids:
